@@ -30,6 +30,7 @@ func runC16(x *Ctx) {
 	x.C.Rule("C16.R3", "Parse guards", 5)
 	x.C.Rule("C16.R4", "PubKey only accepts the canonical identifier of the key", 2)
 	x.C.Rule("C16.R5", "nil result of UnmarshalCompressed is rejected", 1)
+	x.C.Rule("C16.R6", "point coordinates are serialised with a fixed width", 1)
 
 	parse := x.fn("C16.R1", "did.Parse")
 	pub := x.fn("C16.R1", "(did.DID).PubKey")
@@ -124,22 +125,17 @@ func runC16(x *Ctx) {
 		// both the error and the comparison must block
 		vs2, _ := x.E.ConsistentPaths(pub, paths.WantSuccess, A, 0)
 		idiomA = idiomA && len(vs2) == 0
-		// alternative idiom: uncompressed secp256k1 (65 bytes) excluded by a length fact
-		vs3, _ := x.E.ConsistentPaths(pub, paths.WantSuccess, paths.Both(paths.ValueIs("recv.code", 231), paths.ValueIs("len("+keyBytes+")", 65)), 0)
-		idiomB := false
-		for _, p := range x.pathsQuiet(pub) {
-			for _, f := range p.Facts {
-				if f.Atom.Contains("len(" + keyBytes + ")") {
-					idiomB = true
-				}
-			}
-		}
-		idiomB = idiomB && len(vs3) == 0
+		// A length test for secp256k1 alone is NOT accepted as an alternative: the PKCS#1 RSA parser
+		// (x509.ParsePKCS1PublicKey) tolerates trailing elements inside the SEQUENCE, which vanish when
+		// the key is re-marshalled, so a padded RSA did:key would be a second identifier of the same
+		// key (seeded change C16/1). Only the re-derivation idiom covers every unmarshaller.
 		x.C.Obl("C16.R4", "canonical-identifier", x.pos(pub),
-			"PubKey returns a key only if FromPubKey(key) == the receiver DID (or a length fact excludes the 65-byte secp256k1 form): one principal, one DID", idiomA || idiomB,
+			"PubKey returns a key only if FromPubKey(key) succeeded and equals the receiver DID: one principal, one DID, for every key type", idiomA,
 			"success path(s) without the canonical comparison:\n"+renderPaths(vs2, 2))
 		x.C.Obl("C16.R4", "lenient-unmarshaller-present", x.pos(pub), "the table still contains the lenient crypto.UnmarshalSecp256k1PublicKey (so R4 is needed)", tableHas(pub, "UnmarshalSecp256k1PublicKey"), "")
 	}
+
+	fixedWidthCoordinates(x)
 
 	// ---- R5
 	if g := x.fn("C16.R5", "did.ecdsaPubKeyUnmarshaler$1"); g != nil {
@@ -149,6 +145,36 @@ func runC16(x *Ctx) {
 		// at least the x coordinate must be checked (y is nil iff x is nil)
 		x.C.Obl("C16.R5", "nil-point", x.pos(g), "no key is returned when elliptic.UnmarshalCompressed returned a nil coordinate", err == nil && (len(vs) == 0 || len(vs2) == 0), renderPaths(vs, 2))
 	}
+}
+
+// fixedWidthCoordinates: no (*big.Int).Bytes() in package did (it drops leading zero bytes; a
+// point / key encoding built from it has a variable layout); FillBytes or Marshal* must be used.
+func fixedWidthCoordinates(x *Ctx) {
+	bad, n := "", 0
+	for _, f := range x.P.ModuleFuncs() {
+		if x.P.PkgPathOf(f) != "github.com/ucan-wg/go-ucan/did" {
+			continue
+		}
+		for _, b := range f.Blocks {
+			for _, in := range b.Instrs {
+				c, ok := in.(ssa.CallInstruction)
+				if !ok {
+					continue
+				}
+				g := paths.StaticCallee(c)
+				if g == nil {
+					continue
+				}
+				switch g.String() {
+				case "(*math/big.Int).Bytes":
+					bad += x.P.Pos(in.Pos()) + ": (*big.Int).Bytes() in " + paths.FuncName(f) + " drops leading zero bytes: coordinates must be written with FillBytes into a fixed-width buffer\n"
+				case "(*math/big.Int).FillBytes":
+					n++
+				}
+			}
+		}
+	}
+	x.C.Obl("C16.R6", "fixed-width-coordinates", "did/crypto.go", "big integers of key material are serialised with FillBytes (fixed width), never with Bytes()", bad == "" && n >= 2, bad)
 }
 
 func tableHas(f *ssa.Function, name string) bool {
